@@ -55,6 +55,8 @@ def gen_session(seed, tier, weights, ncmd_range=(1, 6), initial_filter_p=0.25, m
     sc['intents'] = S.insert_commands(rng, intents, cmds)
     if nconn >= 2 and rng.random() < 0.2:
         sc['intents'] = S.revisit_flavour(rng, sc['intents'], voc.conns)
+    if pid in ('C11', 'C12') and rng.random() < 0.15:
+        sc['intents'] = S.collision_flavour(rng, sc['intents'], voc, 'list' if pid == 'C11' else rng.choice(['filter', 'breakpoint', 'filter']))
     if nconn >= 2 and pid == 'C06' and rng.random() < 0.15:
         # a backend closes one connection in the middle of the session; its traffic stops there, everybody else goes on
         c = rng.randrange(nconn)
